@@ -119,7 +119,7 @@ fn obtain_route_handler() -> Result<(), String> {
         };
         let st = St { auth: Mutex::new(AuthProvider::new(Db(Arc::new(Mutex::new(Vec::new()))))) };
         let app: App<St> = App::new_with_config(1, st)
-            .with_auth_route("/auth", |_req: Request, _st: Arc<St>, uid: String| Response::new(StatusCode::OK, uid))
+            .with_auth_route("/auth", |_req: Request, _st: Arc<St>, uid: String| Response::new(StatusCode::OK, format!("HANDLER:{}", uid)))
             .with_custom_connection_handler(stash);
         std::thread::spawn(move || {
             let _ = app.run(("127.0.0.1", port));
@@ -168,6 +168,10 @@ struct World {
     bad_format: Vec<String>,
     calls: u64,
     unk_tok_lens: HashSet<usize>, // lengths of the strings used as "unknown token" so far
+    /// growth pass (VERIF_AUTH_LENIENT=1): "unknown" arguments are ONLY strings that differ from a real uid / token by
+    /// case, white-space padding or Unicode look-alikes.  Whether such strings denote the same token (a tree may
+    /// normalise its input) is not decided by the statement of C17, so they are kept out of the gating passes.
+    lenient: bool,
     tok_cache: std::cell::RefCell<Option<(Vec<String>, bool, std::rc::Rc<(Vec<String>, usize)>)>>,
     uid_cache: std::cell::RefCell<Option<(Option<String>, std::rc::Rc<(Vec<String>, usize)>)>>,
 }
@@ -190,11 +194,56 @@ struct Snap {
     clock: i64,
 }
 
-#[derive(Clone, Debug, PartialEq)]
+/// What a call returned, in the vocabulary of the property: `res` is ok / true / false / err (any AuthError) /
+/// 200 (the route's handler ran) / rej (any other response of the route) / panic; `detail` keeps what the statement
+/// of C17 does not fix (which AuthError, which status code) and `note` a difference seen only in the stored fields.
+#[derive(Clone, Debug)]
 struct Obs {
     res: String,
     ruid: i64,
     rtok: i64,
+    detail: String,
+    note: String,
+}
+
+fn obs(res: &str, ruid: i64, rtok: i64) -> Obs {
+    Obs { res: res.to_string(), ruid, rtok, detail: String::new(), note: String::new() }
+}
+
+/// the spec's result names in the vocabulary above
+fn norm_exp(res: &str) -> &str {
+    match res {
+        "UserNotFound" | "InvalidToken" | "SessionAlreadyExists" => "err",
+        "401" => "rej",
+        r => r,
+    }
+}
+
+enum Agree {
+    Yes,
+    /// differs only in something the statement of C17 leaves open (reported as SPEC-DRIFT, never a violation)
+    Drift(String),
+    No(String),
+}
+
+/// FALSE-ALARM AUDIT: what gates is what the statement demands - whether a password verifies, whether a token
+/// authenticates and whom, whether a session / refresh is granted or refused, that uids and tokens are fresh.
+/// Not demanded and therefore only drift: WHICH AuthError a refusal carries, WHICH status a refused route request
+/// gets, what `exists` says (not an operation of the property), what remove_user answers for a uid that is not there.
+fn agree(got: &Obs, exp: &Obs, a: &Act) -> Agree {
+    let same = got.res == norm_exp(&exp.res) && got.ruid == exp.ruid && got.rtok == exp.rtok;
+    let free = a.op == "exists" || (a.op == "remove_user" && exp.res == "UserNotFound");
+    if !same {
+        let d = format!("returned {} {} (uid {}, token {}), spec expects {} (uid {}, token {})", got.res, got.detail, got.ruid, got.rtok, exp.res, exp.ruid, exp.rtok);
+        return if free && got.res != "panic" { Agree::Drift(d) } else { Agree::No(d) };
+    }
+    if (got.res == "err" || got.res == "rej") && got.detail != exp.res {
+        return Agree::Drift(format!("{} refused with {}, the code model says {}", a.op, got.detail, exp.res));
+    }
+    if !got.note.is_empty() {
+        return Agree::Drift(got.note.clone());
+    }
+    Agree::Yes
 }
 
 #[derive(Clone, Debug)]
@@ -248,6 +297,7 @@ impl World {
             bad_format: vec![],
             calls: 0,
             unk_tok_lens: HashSet::new(),
+            lenient: std::env::var("VERIF_AUTH_LENIENT").map(|v| v == "1").unwrap_or(false),
             tok_cache: Default::default(),
             uid_cache: Default::default(),
         }
@@ -344,20 +394,31 @@ impl World {
     }
 
     fn unknown_uids_build(&self, first: Option<String>) -> (Vec<String>, usize) {
+        if self.lenient {
+            let mut v = vec![];
+            if let Some(x) = first {
+                let up = x.to_uppercase();
+                if up != x {
+                    v.push(up);
+                }
+                v.push(format!("{} ", x));
+                v.push(format!(" {}", x));
+                v.push(format!("{}\u{a0}", x));
+                v.push(x.replacen('-', "\u{2010}", 1));
+            }
+            if v.is_empty() {
+                v.push("".to_string());
+            }
+            let n = v.len();
+            return (v, n);
+        }
         let mut v = vec!["".to_string(), "00000000-0000-4000-8000-000000000000".to_string(), "*".to_string(), "-".to_string()];
         let mut rot = vec![];
         if let Some(x) = first {
-            let up = x.to_uppercase();
-            if up != x {
-                v.push(up);
-            }
             v.push(x[..x.len() - 1].to_string());
             v.push(x[1..].to_string());
-            v.push(format!("{} ", x));
-            v.push(format!(" {}", x));
             v.push(format!("{}0", x));
-            v.push(format!("{}\u{a0}", x));
-            v.push(x.replacen('-', "\u{2010}", 1));
+            v.push(format!("0{}", x));
             for l in 1..x.len() - 1 {
                 rot.push(x[..l].to_string());
             }
@@ -384,39 +445,59 @@ impl World {
     }
 
     fn unknown_toks_build(&self, stored: &[String], cookie: bool) -> (Vec<String>, usize) {
+        if self.lenient {
+            // same token up to case, padding, Unicode look-alike digits
+            let mut v = vec![];
+            for x in stored {
+                if x.len() < 3 || !x.is_ascii() {
+                    continue;
+                }
+                let up = x.to_uppercase();
+                if up != *x {
+                    v.push(up);
+                    if let Some(i) = x.find(|c: char| c.is_ascii_lowercase()) {
+                        let mut m = x.clone();
+                        m.replace_range(i..i + 1, &x[i..i + 1].to_uppercase());
+                        v.push(m);
+                    }
+                }
+                let low = x.to_lowercase();
+                if low != *x {
+                    v.push(low);
+                }
+                if let Some(i) = x.find(|c: char| c.is_ascii_digit()) {
+                    let d = x.as_bytes()[i] - b'0';
+                    let mut m = x.clone();
+                    m.replace_range(i..i + 1, &char::from_u32(0xFF10 + d as u32).unwrap().to_string());
+                    v.push(m);
+                }
+                if !cookie {
+                    v.push(format!("{} ", x));
+                    v.push(format!(" {}", x));
+                    v.push(format!("{}\n", x));
+                    v.push(format!("\u{a0}{}", x));
+                    v.push(format!("{}\u{2028}", x));
+                }
+            }
+            v.retain(|s| !self.toks.contains(s));
+            if v.is_empty() {
+                v.push("".to_string());
+            }
+            let n = v.len();
+            return (v, n);
+        }
+        // gating passes: strings that cannot denote an issued token under any normalisation
         let mut v = vec!["".to_string(), "0".repeat(64)];
         let mut rot = vec!["g".repeat(64), "*".to_string(), "0".to_string()];
         for x in stored {
             if x.len() < 3 || !x.is_ascii() {
                 continue;
             }
-            let up = x.to_uppercase();
-            if up != *x {
-                v.push(up);
-                // only the first letter digit in upper case
-                if let Some(i) = x.find(|c: char| c.is_ascii_lowercase()) {
-                    let mut m = x.clone();
-                    m.replace_range(i..i + 1, &x[i..i + 1].to_uppercase());
-                    rot.push(m);
-                }
-            }
             v.push(x[..x.len() - 1].to_string());
             v.push(x[1..].to_string());
             v.push(format!("{}0", x));
             rot.push(format!("0{}", x));
-            // the first decimal digit as a full-width digit (U+FF10..), which Unicode-aware digit tests accept
-            if let Some(i) = x.find(|c: char| c.is_ascii_digit()) {
-                let d = x.as_bytes()[i] - b'0';
-                let mut m = x.clone();
-                m.replace_range(i..i + 1, &char::from_u32(0xFF10 + d as u32).unwrap().to_string());
-                rot.push(m);
-            }
             if !cookie {
-                v.push(format!("{} ", x));
-                rot.push(format!(" {}", x));
-                rot.push(format!("{}\n", x));
-                rot.push(format!("\u{a0}{}", x));
-                rot.push(format!("{}\u{2028}", x));
                 rot.push(format!("{}\0", x));
             }
             for l in 1..x.len() - 1 {
@@ -503,7 +584,7 @@ impl World {
     }
 
     fn err(e: AuthError) -> String {
-        format!("{:?}", e)
+        format!("err:{:?}", e)
     }
 
     /// Executes one operation on the real system (variant selects the concrete string for argument 0).
@@ -541,6 +622,7 @@ impl World {
         let op = a.op.clone();
         let life = a.life.clone();
         let ck = a.ck.clone();
+        let lenient = self.lenient;
         let mut concrete = String::new();
         let r = catch_unwind(AssertUnwindSafe(|| -> (String, Option<String>, Option<String>) {
             // (res, returned uid string, returned token string)
@@ -587,9 +669,17 @@ impl World {
                         "none" => if variant % 2 == 0 { String::new() } else { "Cookie: a=b; theme=dark\r\n".to_string() },
                         "tok" => format!("Cookie: HumphreyToken={}\r\n", tok),
                         "among" => format!("Cookie: a=b; HumphreyToken={}; theme=dark\r\n", tok),
+                        _ if lenient => match variant % 4 {
+                            // cookie names that differ from HumphreyToken in case only: whether names are case-sensitive is
+                            // not part of C17 (growth pass, drift only)
+                            0 => format!("Cookie: humphreytoken={}\r\n", tok),
+                            1 => format!("Cookie: HUMPHREYTOKEN={}\r\n", tok),
+                            2 => format!("Cookie: Humphreytoken={}\r\n", tok),
+                            _ => format!("Cookie: humphreyToken={}\r\n", tok),
+                        },
                         _ => match variant % 4 {
                             0 => format!("Cookie: Token={}\r\n", tok),
-                            1 => format!("Cookie: humphreytoken={}\r\n", tok),
+                            1 => format!("Cookie: HumphreyToke={}\r\n", tok),
                             2 => format!("Cookie: HumphreyToken2={}; XHumphreyToken={}\r\n", tok, tok),
                             _ => format!("X-Cookie: HumphreyToken={}\r\n", tok),
                         },
@@ -602,11 +692,12 @@ impl World {
                     let sub = SUBAPP.get().expect("route handler");
                     let rh = sub.routes.iter().find(|r| r.route == "/auth").expect("/auth route");
                     let resp = rh.handler.serve(req, st.clone());
+                    // the handler registered by the harness answers "HANDLER:<uid>"; anything else is the wrapper refusing
                     let code: u16 = resp.status_code.clone().into();
-                    if code == 200 {
-                        ("200".into(), Some(String::from_utf8_lossy(&resp.body).to_string()), None)
-                    } else {
-                        (format!("{}", code), None, None)
+                    let body = String::from_utf8_lossy(&resp.body).to_string();
+                    match body.strip_prefix("HANDLER:") {
+                        Some(u) => ("200".into(), Some(u.to_string()), None),
+                        None => (format!("rej:{}", code), None, None),
                     }
                 }
                 other => (format!("harness-unknown-op:{}", other), None, None),
@@ -621,25 +712,57 @@ impl World {
             concrete += &format!(" password={:?}", pw);
         }
         let n1 = now();
-        let (mut res, ru, rt) = match r {
+        let (res0, ru, rt) = match r {
             Ok(x) => x,
             Err(_) => ("panic".to_string(), None, None),
         };
-        // exact expiry: a session created / refreshed by this call must carry expiry = now + lifetime, `now` read by the
-        // code between the two clock reads around the call (saturating at u64::MAX: a session cannot outlive the clock)
+        // res = class, detail = what the statement leaves open (error kind, status code)
+        let (mut res, detail) = match res0.split_once(':') {
+            Some((c, d)) => (c.to_string(), d.to_string()),
+            None => (res0, String::new()),
+        };
+        // Expiry, judged in two levels.  The stored field should be now + lifetime for a `now` between the two clock reads
+        // around the call (saturating).  The field is not part of the statement; what the statement demands is that the token
+        // authenticates "only until it expires".  So when the field is off, the harness asks the API: it shifts the stored
+        // expiry back by exactly the demanded lifetime and calls get_uid_by_token - a token that still authenticates then
+        // OUTLIVES its lifetime (violation); shifted to 1000 s before the demanded end it must still authenticate, otherwise
+        // it expires EARLY (violation).  Time only moves forward, so neither verdict depends on the load of the machine.
+        // A field that is off by less than that is reported as drift.
+        let mut note = String::new();
         if res == "ok" && (a.op == "create_session" || a.op == "refresh_session") {
             let (tokstr, l) = if a.op == "create_session" { (rt.clone().unwrap_or_default(), life_secs) } else { (tok.clone(), lives.refresh * UNIT) };
             let e = self.db.g().iter().find_map(|u| u.session.as_ref().filter(|s| s.token == tokstr).map(|s| s.expiry));
             let (lo, hi) = (n0.saturating_add(l), n1.saturating_add(l));
             match e {
                 Some(e) if e >= lo && e <= hi => {}
-                other => res = format!("ok!stored-expiry={:?},demanded={}..={}", other, lo, hi),
+                Some(e) if l < (1u64 << 31) => {
+                    let set = |w: &World, v: u64| {
+                        for u in w.db.g().iter_mut() {
+                            if let Some(s) = u.session.as_mut() {
+                                if s.token == tokstr { s.expiry = v; }
+                            }
+                        }
+                    };
+                    let auth = |w: &World| catch_unwind(AssertUnwindSafe(|| w.st.auth_provider().get_uid_by_token(&tokstr).is_ok())).unwrap_or(false);
+                    set(self, e.saturating_sub(l).saturating_sub(1));     // the demanded lifetime (+ 1 s for an implementation that rounds the clock up) has passed
+                    let outlives = auth(self);
+                    set(self, e.saturating_sub(l.saturating_sub(1000)));  // 1000 s of the demanded lifetime are left
+                    let early = l > 2000 && !auth(self);
+                    set(self, e);
+                    if outlives {
+                        res = "ok!outlives-lifetime".to_string();
+                    } else if early {
+                        res = "ok!expires-early".to_string();
+                    }
+                    note = format!("stored expiry {} outside the demanded {}..={} (lifetime {} s)", e, lo, hi, l);
+                }
+                other => note = format!("stored expiry {:?} outside the demanded {}..={} (lifetime {} s)", other, lo, hi, l),
             }
         }
         if a.op == "create_session" {
             concrete += &format!(" lifetime={}s", life_secs);
         }
-        let mut o = Obs { res, ruid: 0, rtok: 0 };
+        let mut o = Obs { res, ruid: 0, rtok: 0, detail, note };
         if let Some(u) = ru {
             if a.op == "create_user" {
                 // a repeated uid maps to the old number (and is thereby visible as a mismatch)
@@ -724,6 +847,41 @@ fn diff_state(w: &World, t: &SpecState) -> Option<String> {
     }
     if w.uids.len() != t.nu || w.toks.len() != t.nt {
         return Some(format!("handed out {} uids / {} tokens, spec {} / {}", w.uids.len(), w.toks.len(), t.nu, t.nt));
+    }
+    None
+}
+
+/// After a call whose RESULT was right but which left the database in a state the code model does not predict (a stored
+/// expiry, a slot cleared lazily, another order of the users ...): the stored fields are not part of the statement, so
+/// this alone is only drift.  Whether it MATTERS is asked through the API: from the real state the harness follows the
+/// spec's graph from `t` - at every clock value up to the end of the model's horizon every get_uid_by_token / refresh
+/// refusal / create_session refusal of the spec state is compared (read-only calls and refusals only), then Tick.
+/// Returns the first call whose result the statement does not allow, with the calls that led there.
+fn tick_probe(w: &mut World, out: &[Vec<Edge>], t: usize, pepper: bool) -> Option<(String, Vec<Value>)> {
+    let mut cur = t;
+    let mut ops: Vec<Value> = vec![];
+    for _ in 0..12 {
+        for pe in &out[cur] {
+            let readonly = pe.t == cur && pe.a.tok != 0 && matches!(pe.a.op.as_str(), "get_uid_by_token" | "auth_route");
+            let refusal = pe.t == cur && norm_exp(&pe.exp.res) == "err" && matches!(pe.a.op.as_str(), "refresh_session" | "create_session") && (pe.a.tok != 0 || pe.a.u != 0);
+            if !(readonly || refusal) || (pe.a.op == "auth_route" && pe.a.ck != "tok") {
+                continue;
+            }
+            let (got, _) = w.apply(&pe.a, 0);
+            ops.push(op_rec(&pe.a, 0, pepper));
+            if let Agree::No(d) = agree(&got, &pe.exp, &pe.a) {
+                return Some((format!("(after the unpredicted database state) {} {:?}: {}", pe.a.op, (pe.a.u, pe.a.tok), d), ops));
+            }
+            ops.pop();
+        }
+        match out[cur].iter().find(|pe| pe.a.op == "tick") {
+            Some(te) => {
+                w.tick();
+                ops.push(op_rec(&te.a, 0, pepper));
+                cur = te.t;
+            }
+            None => break,
+        }
     }
     None
 }
@@ -823,7 +981,7 @@ fn graph(args: &[String]) {
         let a = &v[1];
         out[s].push(Edge {
             a: act_of(a),
-            exp: Obs { res: a[6].as_str().unwrap_or("").to_string(), ruid: a[7].as_i64().unwrap_or(0), rtok: a[8].as_i64().unwrap_or(0) },
+            exp: obs(a[6].as_str().unwrap_or(""), a[7].as_i64().unwrap_or(0), a[8].as_i64().unwrap_or(0)),
             t,
             raw_a: act_json(a),
         });
@@ -850,6 +1008,10 @@ fn graph(args: &[String]) {
     let mut n_mism = 0u64;
     let mut n_rie = 0u64;
     let mut n_eo = 0u64;
+    let mut n_drift = 0u64; // results that differ only in what the statement leaves open
+    let mut n_soft = 0u64; // right result, database state not predicted by the code model (and harmless when probed)
+    let mut drifts: Vec<Value> = vec![];
+    let mut soft: Vec<Value> = vec![];
     let mut argon_calls = 0u64;
     let mut edges_nontrivial = 0u64;
     let mut classes: BTreeMap<String, u64> = BTreeMap::new();
@@ -859,6 +1021,10 @@ fn graph(args: &[String]) {
     let mut bad_format = 0u64;
     let t_start = Instant::now();
     while let Some(si) = queue.pop_front() {
+        // fail fast (a broken tree can also be a slow one): a hundred unexplained mismatches are enough
+        if n_mism - n_rie - n_eo >= 100 {
+            break;
+        }
         let snap = snaps[si].clone().unwrap();
         for (ei, e) in out[si].iter().enumerate() {
             let needs_argon = e.a.op == "create_user" || (e.a.op == "verify" && e.a.u != 0 && states[si].us[(e.a.u - 1) as usize].0 != 0);
@@ -873,8 +1039,38 @@ fn graph(args: &[String]) {
             edge_counter += 1;
             let mut ok_edge = true;
             for variant in w.edge_variants(&e.a, edge_counter) {
-                let (got, concrete) = if e.a.op == "tick" { w.tick(); (Obs { res: "ok".into(), ruid: 0, rtok: 0 }, String::new()) } else { w.apply(&e.a, variant) };
-                let d = if got != e.exp { Some(format!("returned {:?}, spec expects {:?}", got, e.exp)) } else { diff_state(&w, &states[e.t]) };
+                let (got, concrete) = if e.a.op == "tick" { w.tick(); (obs("ok", 0, 0), String::new()) } else { w.apply(&e.a, variant) };
+                // level 1: the result, in the vocabulary of the property (gates); level 2: the stored state (drift), probed
+                let mut extra_ops: Vec<Value> = vec![];
+                let d = match agree(&got, &e.exp, &e.a) {
+                    Agree::No(d) => Some(d),
+                    other => {
+                        if let Agree::Drift(dd) = other {
+                            n_drift += 1;
+                            if drifts.len() < 12 && !drifts.iter().any(|x: &Value| x["what"].as_str().map(|w| w[..w.len().min(40)] == dd[..dd.len().min(40)]).unwrap_or(false)) {
+                                drifts.push(json!({"what": dd, "call": e.raw_a, "concrete": concrete}));
+                            }
+                        }
+                        match diff_state(&w, &states[e.t]) {
+                            None => None,
+                            Some(sd) => {
+                                n_soft += 1;
+                                if soft.len() < 8 {
+                                    let s = &states[si];
+                                    soft.push(json!({"what": sd, "call": e.raw_a, "concrete": concrete,
+                                        "state": {"clock": s.c, "users_pw_tok_exp": s.us.iter().map(|x| json!([x.0, x.1, x.2])).collect::<Vec<_>>()}}));
+                                }
+                                let keep = w.snapshot();
+                                let r = tick_probe(&mut w, &out, e.t, pepper);
+                                w.restore(&keep);
+                                match r {
+                                    Some((pd, pops)) => { extra_ops = pops; Some(format!("{}; {}", sd, pd)) }
+                                    None => None,
+                                }
+                            }
+                        }
+                    }
+                };
                 if let Some(d) = d {
                     ok_edge = false;
                     n_mism += 1;
@@ -891,6 +1087,7 @@ fn graph(args: &[String]) {
                     if (known && mism_rie.len() < 8) || (!known && mism.len() < 30) {
                         let mut ops = path_ops(&parent, &out, si, pepper);
                         ops.push(op_rec(&e.a, variant, pepper));
+                        ops.extend(extra_ops);
                         let m = json!({"pepper": pepper, "ops": ops, "state": {"clock": s.c, "users_pw_tok_exp": s.us.iter().map(|x| json!([x.0, x.1, x.2])).collect::<Vec<_>>()},
                             "call": e.raw_a, "concrete": concrete, "difference": d,
                             "class": if rie { "RefreshIgnoresExpiry" } else if eo { "ExpiryOverflow" } else { "" }});
@@ -931,7 +1128,7 @@ fn graph(args: &[String]) {
 
     // ---- deferred Argon2 edges, in parallel (each: restore the snapshot of s, call, compare)
     let stride = if argon_budget == 0 || deferred.len() <= argon_budget { 1 } else { (deferred.len() + argon_budget - 1) / argon_budget };
-    let selected: Vec<(usize, usize)> = deferred.iter().cloned().step_by(stride).collect();
+    let selected: Vec<(usize, usize)> = if n_mism - n_rie - n_eo >= 100 { vec![] } else { deferred.iter().cloned().step_by(stride).collect() };
     argon_skipped += (deferred.len() - selected.len()) as u64;
     let threads = std::env::var("VERIF_AUTH_THREADS").ok().and_then(|x| x.parse::<usize>().ok()).unwrap_or(8).max(1);
     let pwmap = w.pwmap;
@@ -949,7 +1146,8 @@ fn graph(args: &[String]) {
                     let snap = snaps[si].as_ref().unwrap();
                     w.restore(snap);
                     let (got, concrete) = w.apply(&e.a, 0);
-                    let d = if got != e.exp { Some(format!("returned {:?}, spec expects {:?}", got, e.exp)) } else { diff_state(&w, &states[e.t]) };
+                    // (Argon2 edges: create_user / verify; the stored state after them is compared as drift by the main pass)
+                    let d = match agree(&got, &e.exp, &e.a) { Agree::No(d) => Some(d), _ => None };
                     run += 1;
                     if nontrivial(e, si) { nt += 1; }
                     *cl.entry(format!("{}:{}", e.a.op, e.exp.res)).or_insert(0) += 1;
@@ -988,6 +1186,9 @@ fn graph(args: &[String]) {
     let mut walk_mism = 0u64;
     let mut calls = w.calls + argon_calls;
     for wi in 0..walks {
+        if n_mism - n_rie - n_eo >= 100 {
+            break;
+        }
         let mut w = World::new(pepper, wi % PW_MAPS.len(), lives);
         let mut cur = init;
         let mut hist: Vec<Value> = vec![];
@@ -1007,11 +1208,15 @@ fn graph(args: &[String]) {
                 }
             }
             let variant = rng.below(w.variants(&e.a).max(1));
-            let (got, concrete) = if e.a.op == "tick" { w.tick(); (Obs { res: "ok".into(), ruid: 0, rtok: 0 }, String::new()) } else { w.apply(&e.a, variant) };
+            let (got, concrete) = if e.a.op == "tick" { w.tick(); (obs("ok", 0, 0), String::new()) } else { w.apply(&e.a, variant) };
             hist.push(json!({"call": e.raw_a, "concrete": concrete}));
             ops.push(op_rec(&e.a, variant, pepper));
             walk_steps += 1;
-            let d = if got != e.exp { Some(format!("returned {:?}, spec expects {:?}", got, e.exp)) } else { diff_state(&w, &states[e.t]) };
+            let d = match agree(&got, &e.exp, &e.a) {
+                Agree::No(d) => Some(d),
+                Agree::Drift(_) => { n_drift += 1; None }
+                Agree::Yes => { if diff_state(&w, &states[e.t]).is_some() { n_soft += 1; } None }
+            };
             if let Some(d) = d {
                 walk_mism += 1;
                 n_mism += 1;
@@ -1037,7 +1242,7 @@ fn graph(args: &[String]) {
     }
     out_line(&json!({"summary": true, "pepper": pepper, "edges_total": n_edges, "edges_run": edges_run, "argon_edges_skipped": argon_skipped,
         "states_total": states.len(), "states_reached": reached, "calls": calls, "mismatches": n_mism, "mismatches_refresh_ignores_expiry": n_rie, "mismatches_expiry_overflow": n_eo, "first": mism, "first_refresh_ignores_expiry": mism_rie,
-        "unknown_token_lengths": w.unk_tok_lens.len(), "argon_edges_run": argon_calls,
+        "unknown_token_lengths": w.unk_tok_lens.len(), "drift_results": n_drift, "drift_state": n_soft, "first_drift_results": drifts, "first_drift_state": soft, "argon_edges_run": argon_calls,
         "classes": classes, "samples": samples, "tokens_issued": all_tokens.len(), "token_dups": dup_tokens, "token_bad_format": bad_format,
         "walks": walks, "walk_steps": walk_steps, "walk_mismatches": walk_mism, "bfs_s": bfs_s, "argon_s": argon_s, "edges_nontrivial": edges_nontrivial}));
     std::process::exit(0);
@@ -1055,11 +1260,11 @@ fn one_trace(seed: u64, idx: usize, maxlen: usize, lives: Lives) -> (Vec<String>
     let mut lines = vec![];
     let rec = |a: &Act, o: &Obs, w: &World, v: usize| -> String {
         let st: Vec<Value> = w.project().iter().map(|x| json!([x.0, x.1, x.2])).collect();
-        json!({"op": a.op, "u": a.u, "pw": a.pw, "life": a.life, "tok": a.tok, "ck": a.ck, "res": o.res, "ruid": o.ruid, "rtok": o.rtok,
+        json!({"op": a.op, "u": a.u, "pw": a.pw, "life": a.life, "tok": a.tok, "ck": a.ck, "res": o.res, "detail": o.detail, "note": o.note, "ruid": o.ruid, "rtok": o.rtok,
                "c": w.clock, "st": st, "v": v, "pepper": pepper}).to_string()
     };
     let blank = Act { op: "reset".into(), u: 0, pw: 0, life: "".into(), tok: 0, ck: "".into() };
-    lines.push(rec(&blank, &Obs { res: "ok".into(), ruid: 0, rtok: 0 }, &w, 0));
+    lines.push(rec(&blank, &obs("ok", 0, 0), &w, 0));
     let mut pws: Vec<i64> = vec![]; // password id per uid (harness bookkeeping for choosing arguments only)
     for _ in 0..len {
         let live: Vec<i64> = w.db.g().iter().map(|u| w.uid_index(&u.uid)).collect();
@@ -1115,7 +1320,7 @@ fn one_trace(seed: u64, idx: usize, maxlen: usize, lives: Lives) -> (Vec<String>
             a.op = "tick".into();
         }
         let v = rng.below(w.variants(&a).max(1));
-        let o = if a.op == "tick" { w.tick(); Obs { res: "ok".into(), ruid: 0, rtok: 0 } } else { w.apply(&a, v).0 };
+        let o = if a.op == "tick" { w.tick(); obs("ok", 0, 0) } else { w.apply(&a, v).0 };
         if a.op == "create_user" && o.res == "ok" {
             pws.push(a.pw);
         }
@@ -1202,15 +1407,15 @@ fn rerun(args: &[String]) {
         let o = if a.op == "reset" {
             pepper = v["pepper"].as_bool().unwrap_or(false);
             w = World::new(pepper, 0, lives);
-            Obs { res: "ok".into(), ruid: 0, rtok: 0 }
+            obs("ok", 0, 0)
         } else if a.op == "tick" {
             w.tick();
-            Obs { res: "ok".into(), ruid: 0, rtok: 0 }
+            obs("ok", 0, 0)
         } else {
             w.apply(&a, variant).0
         };
         let st: Vec<Value> = w.project().iter().map(|x| json!([x.0, x.1, x.2])).collect();
-        out_line(&json!({"op": a.op, "u": a.u, "pw": a.pw, "life": a.life, "tok": a.tok, "ck": a.ck, "res": o.res, "ruid": o.ruid, "rtok": o.rtok,
+        out_line(&json!({"op": a.op, "u": a.u, "pw": a.pw, "life": a.life, "tok": a.tok, "ck": a.ck, "res": o.res, "detail": o.detail, "note": o.note, "ruid": o.ruid, "rtok": o.rtok,
                "c": w.clock, "st": st, "v": variant, "pepper": pepper}));
     }
     std::process::exit(0);
@@ -1235,15 +1440,23 @@ fn tokens(args: &[String]) {
     for i in 0..n {
         let r = catch_unwind(AssertUnwindSafe(|| {
             let mut p = st.auth_provider();
+            // whatever the previous round left is cleared first, so that only the issuing itself is exercised
+            p.invalidate_user_session(&uid);
             match i % 3 {
                 0 => p.create_session_with_lifetime(&uid, 0),
                 1 => { let t = p.create_session(&uid); if let Ok(t) = &t { p.invalidate_session(t); } t }
                 _ => { let t = p.create_session_with_lifetime(&uid, 5); p.invalidate_user_session(&uid); t }
             }
         }));
-        let t = match r { Ok(Ok(t)) => t, Ok(Err(e)) => format!("error:{:?}", e), Err(_) => "panic".to_string() };
-        let d: Vec<i64> = t.chars().map(|c| match c { '0'..='9' => c as i64 - '0' as i64, 'a'..='f' => c as i64 - 'a' as i64 + 10, _ => -1 }).collect();
-        out_line(&json!({"t": t, "d": d}));
+        let t = match r {
+            Ok(Ok(t)) => t,
+            // no token, nothing to judge here (the functional passes judge refusals and panics)
+            Ok(Err(e)) => { eprintln!("create_session refused while issuing tokens: {:?}", e); std::process::exit(3) }
+            Err(_) => { eprintln!("create_session panicked while issuing tokens"); std::process::exit(3) }
+        };
+        let d: Vec<i64> = t.chars().map(|c| c.to_digit(16).filter(|_| c.is_ascii()).map(|x| x as i64).unwrap_or(-1)).collect();
+        let c: Vec<i64> = t.chars().map(|c| c as i64).collect();
+        out_line(&json!({"t": t, "d": d, "c": c}));
     }
     std::process::exit(0);
 }
